@@ -6,6 +6,7 @@ func init() {
 	vHarnesses["H_C03_encode"] = H_C03_encode
 	vHarnesses["H_C03_encode_deep"] = H_C03_encode_deep
 	vHarnesses["H_C03_anyxml"] = H_C03_anyxml
+	vHarnesses["H_C03_anyxml_lists"] = H_C03_anyxml_lists
 }
 
 type vJSpec struct {
@@ -258,4 +259,41 @@ func H_C03_anyxml() {
 	}
 	vC03check(x, err, root)
 	XMLEscapeChars(false)
+}
+
+// AnyXml on a list whose members are one-key maps that hold lists, scalars or maps
+func H_C03_anyxml_lists() {
+	vResetDecOpts()
+	XMLEscapeChars(true)
+	n := 1 + vChoose(2)
+	var v []interface{}
+	root := &vXElem{name: "doc"}
+	for i := 0; i < n; i++ {
+		k := vNondetString(1, 1, "ab")
+		var val interface{}
+		switch vChoose(4) {
+		case 0:
+			val = []interface{}{vNondetString(1, 1, "x<"), "y"}
+		case 1:
+			val = []interface{}{map[string]interface{}{"c": "1"}, "z"}
+		case 2:
+			val = []interface{}{}
+		default:
+			val = vNondetString(1, 1, "x<")
+		}
+		v = append(v, map[string]interface{}{k: val})
+		for _, ch := range refTreesOf(k, val) {
+			root.items = append(root.items, vXItem{kind: 0, el: ch})
+		}
+	}
+	var x []byte
+	var err error
+	if vChoose(2) == 1 {
+		x, err = AnyXmlIndent(v, "", " ")
+	} else {
+		x, err = AnyXml(v)
+	}
+	vC03check(x, err, root)
+	XMLEscapeChars(false)
+	vCover("lists")
 }
